@@ -371,6 +371,166 @@ SKIP_KEYS = {"modelType", "type", "valueType", "typeValueListElement", "valueTyp
              "idShort", "keys"}
 
 
+# ------------------------------------------------------------------ minimal perturbations of typed values
+
+def typed_bases():
+    """xsd type name -> (SDK type, [base values], perturbation function value -> [other values])"""
+    import datetime as dtm
+    import decimal
+    import math
+    from dateutil.relativedelta import relativedelta
+    from basyx.aas.model import datatypes as dt
+    tz = dtm.timezone(dtm.timedelta(hours=2))
+    res = {}
+
+    def fl(v):
+        return [math.nextafter(v, math.inf), math.nextafter(v, -math.inf)]
+    for name in ("Double", "Float"):
+        res[name] = (getattr(dt, name), [0.3, 1e22, 1.0, -2.5e-07, 5e-324], fl)
+    res["Decimal"] = (dt.Decimal, [decimal.Decimal("1.5"), decimal.Decimal("0"), decimal.Decimal("-12345678901234567890.125")],
+                      lambda v: [decimal.Context(prec=200).add(v, decimal.Decimal("1e-25")),      # exact: one more digit
+                                 decimal.Context(prec=200).subtract(v, decimal.Decimal("1e-25"))])
+    ints = {"Integer": 10 ** 20, "Long": 2 ** 40, "Int": 7, "Short": 300, "Byte": -5, "NonPositiveInteger": -3,
+            "NegativeInteger": -3, "NonNegativeInteger": 3, "PositiveInteger": 3, "UnsignedLong": 2 ** 40,
+            "UnsignedInt": 70000, "UnsignedShort": 300, "UnsignedByte": 200}
+    for name, b in ints.items():
+        res[name] = (getattr(dt, name), [b], lambda v: [v + 1, v - 1])
+    res["Boolean"] = (dt.Boolean, [True, False], lambda v: [not v])
+    res["String"] = (dt.String, ["abc", "a b", "x"], lambda v: [v[:-1] + ("d" if v[-1] != "d" else "e"), v + "x", v + " ", " " + v])
+    res["NormalizedString"] = (dt.NormalizedString, ["abc"], lambda v: [v[:-1] + "d", v + "x", v + " "])
+    res["AnyURI"] = (dt.AnyURI, ["http://example.org/a"], lambda v: [v[:-1] + "b", v + "x"])
+    us = dtm.timedelta(microseconds=1)
+    res["DateTime"] = (dt.DateTime, [dtm.datetime(2020, 1, 2, 3, 4, 5, 250000), dtm.datetime(2020, 1, 2, 3, 4, 5, 0, tz),
+                                     dtm.datetime(1999, 12, 31, 23, 59, 59, 999998, dtm.timezone.utc)],
+                       lambda v: [v + us, v - us])
+    res["Date"] = (dt.Date, [dt.Date(2020, 1, 2), dt.Date(2020, 2, 28, tz)],
+                   lambda v: [dt.Date(v.year, v.month, v.day + 1, v.tzinfo)])
+    res["Time"] = (dt.Time, [dtm.time(3, 4, 5, 250000), dtm.time(3, 4, 5, 0, tz)],
+                   lambda v: [v.replace(microsecond=v.microsecond + 1)])
+    res["Duration"] = (dt.Duration, [relativedelta(days=1, seconds=2, microseconds=250000), relativedelta(years=1, months=2)],
+                       lambda v: [v + relativedelta(microseconds=1), v + relativedelta(days=1)])
+    res["GYear"] = (dt.GYear, [dt.GYear(2020)], lambda v: [dt.GYear(v.year + 1)])
+    res["GYearMonth"] = (dt.GYearMonth, [dt.GYearMonth(2020, 5)], lambda v: [dt.GYearMonth(v.year, v.month + 1)])
+    res["GMonthDay"] = (dt.GMonthDay, [dt.GMonthDay(5, 6)], lambda v: [dt.GMonthDay(v.month, v.day + 1)])
+    res["GMonth"] = (dt.GMonth, [dt.GMonth(5)], lambda v: [dt.GMonth(v.month + 1)])
+    res["GDay"] = (dt.GDay, [dt.GDay(6)], lambda v: [dt.GDay(v.day + 1)])
+
+    def by(v):
+        b = bytes(v)
+        return [type(v)(b[:-1] + bytes([b[-1] ^ 1])), type(v)(b + b"\x00")]
+    res["Base64Binary"] = (dt.Base64Binary, [dt.Base64Binary(b"\x01\x02\x03"), dt.Base64Binary(b"\x00")], by)
+    res["HexBinary"] = (dt.HexBinary, [dt.HexBinary(b"\x01\x02\xff")], by)
+    return res
+
+
+CARRIERS = ["prop-top", "prop-coll", "prop-list", "prop-entity", "prop-operation", "prop-annotation",
+            "range-min", "range-max", "qualifier", "extension"]
+
+
+def typed_store(tname, typ, values):
+    """one submodel; values: {(base index, carrier): value}"""
+    from basyx.aas import model
+    top, inner, stmts, ops, anns, lists = [], [], [], [], [], []
+    for (bi, carrier), v in sorted(values.items(), key=lambda kv: (kv[0][0], CARRIERS.index(kv[0][1]))):
+        n = f"{carrier.replace('-', '_')}{bi}"
+        if carrier == "prop-top":
+            top.append(model.Property(n, typ, v))
+        elif carrier == "prop-coll":
+            inner.append(model.Property(n, typ, v))
+        elif carrier == "prop-list":
+            lists.append(model.SubmodelElementList(n, model.Property, [model.Property(None, typ, v)],
+                                                   value_type_list_element=typ))
+        elif carrier == "prop-entity":
+            stmts.append(model.Property(n, typ, v))
+        elif carrier == "prop-operation":
+            ops.append(model.Property(n, typ, v))
+        elif carrier == "prop-annotation":
+            anns.append(model.Property(n, typ, v))
+        elif carrier == "range-min":
+            inner.append(model.Range(n, typ, min=v))
+        elif carrier == "range-max":
+            stmts.append(model.Range(n, typ, max=v))
+        elif carrier == "qualifier":
+            ops.append(model.Capability(n, qualifier=[model.Qualifier("q", typ, v)]))
+        elif carrier == "extension":
+            anns.append(model.Property(n, model.datatypes.String, "x", extension=[model.Extension("e", typ, v)]))
+    r = model.ModelReference((model.Key(model.KeyTypes.SUBMODEL, "urn:x"),), model.Submodel)
+    elems = top + lists + [
+        model.SubmodelElementCollection("c", [model.SubmodelElementCollection("cc", inner)]),
+        model.Entity("e", model.EntityType.CO_MANAGED_ENTITY, stmts),
+        model.Operation("o", in_output_variable=ops),
+        model.AnnotatedRelationshipElement("a", r, r, annotation=anns)]
+    return model.DictObjectStore([model.Submodel("urn:typed:" + tname, elems)])
+
+
+def check_typed_values(chk, rng, quick, tmp, esc_model):
+    """every value-carrying class x every xsd type x every nesting position: a minimal perturbation of one value in
+    the second file must turn the verdict of the equivalence check to FAILED; the unperturbed pair must succeed"""
+    _, two = functions()
+    bases = typed_bases()
+    tried = undetected = rejected = 0
+    for tname, (typ, vals, perturb) in bases.items():
+        if quick:
+            vals = vals[:2]
+        base = {(bi, c): v for bi, v in enumerate(vals) for c in CARRIERS}
+        st0 = typed_store(tname, typ, base)
+        paths = {}
+        for fmt, fn in (("json", "json.check_json_files_equivalence"), ("xml", "xml.check_xml_files_equivalence")):
+            p0 = os.path.join(tmp, f"typed-{tname}.{fmt}")
+            write_store(st0, fmt, p0)
+            paths[fmt] = (p0, fn)
+            raised, statuses, overall = call(two[fn], p0, p0)
+            chk.seen(("typed-self", tname, fmt), nontrivial=True)
+            if raised is not None:
+                report_raise(chk, fn, raised, esc_model, {"input_kind": f"typed store {tname} twice"})
+            elif overall != 0:
+                chk.fail(f"C20:equivalence:equal-data-rejected:typed:{tname}", f"store of xs:{tname} values compared "
+                         f"with itself in {fmt}: steps {statuses}", {"typed": tname, "format": fmt})
+        keys = list(base)
+        if quick:
+            rng.shuffle(keys)
+            keys = keys[:8]
+        for key in keys:
+            alts = perturb(base[key])
+            if quick:
+                alts = alts[:2]
+            for alt in alts:
+                vals2 = dict(base)
+                vals2[key] = alt
+                try:
+                    st1 = typed_store(tname, typ, vals2)
+                except Exception as e:     # perturbed value outside the type's value space: not a test
+                    chk.count("perturbation=not-constructible")
+                    continue
+                for fmt, (p0, fn) in paths.items():
+                    p1 = os.path.join(tmp, f"typed-mut.{fmt}")
+                    write_store(st1, fmt, p1)
+                    raised, statuses, overall = call(two[fn], p0, p1)
+                    tried += 1
+                    chk.seen(("typed-mut", tname, key, repr(alt), fmt), nontrivial=True)
+                    chk.count("perturbation=xs:" + tname)
+                    chk.count("perturbation-at=" + key[1])
+                    rp = {"typed": tname, "base_index": key[0], "carrier": key[1], "base": repr(base[key]),
+                          "perturbed": repr(alt), "format": fmt,
+                          "how": "tools/c20.py replay: rebuilds both stores, writes them and compares the files"}
+                    if raised is not None:
+                        report_raise(chk, fn, raised, esc_model, rp)
+                        continue
+                    loaded = len(statuses) >= 4 and statuses[:4] == [0, 0, 0, 0]
+                    if not loaded:
+                        rejected += 1
+                        chk.count("perturbation=second-file-rejected-by-reader")
+                    if overall == 0 or (loaded and statuses[-1] != 2):
+                        undetected += 1
+                        chk.fail(f"C20:equivalence:undetected-perturbation:xs:{tname}:{key[1].split('-')[0]}",
+                                 f"two {fmt} files differing only in one xs:{tname} value ({key[1]}: {base[key]!r} vs "
+                                 f"{alt!r}) compare as equal: steps {statuses}", rp)
+    chk.cov["typed_perturbations_tried"] = tried
+    chk.cov["typed_perturbations_undetected"] = undetected
+    chk.cov["typed_perturbed_files_rejected_by_reader"] = rejected
+
+
+
 # ------------------------------------------------------------------ the check
 
 def run(chk):
